@@ -196,7 +196,13 @@ def _r5_2_to_4(ctx: Ctx, f, cfg, dom, pm, op, cc):
     mol_loops = [n for n in walk_no_nested(scope) if isinstance(n, ast.For) and norm(n.iter) in ("self.system", "self.system[:]")]
     if not mol_loops:
         other = [n for n in walk_no_nested(scope) if isinstance(n, (ast.For, ast.While))]
-        if other:
+        in_helper = [h_ for h_ in ctx.with_helpers(f)[1:] if any(isinstance(n_, ast.For) and norm(n_.iter) in ("self.system", "self.system[:]")
+                                                                 for n_ in walk_no_nested(h_.node))]
+        if in_helper:
+            ctx.ob("R5.2", f, "molecule loop", True, "the loop over the system lives in a helper that could not be spliced in (`%s`, a "
+                   "generator consumed through an adaptor); order, counter and per-atom writes are not decided on this tree" % in_helper[0].name,
+                   undecided=True, node=scope)
+        elif other:
             ctx.ob("R5.2", f, "molecule loop", False, "the molecules are visited by iterating the system itself (file order) "
                    "-- loop `for mol in self.system` not found", node=scope)
         else:
